@@ -250,3 +250,61 @@ func testBigDec(t *testing.T, prop string) {
 func TestC03Big(t *testing.T) { testBigDec(t, "C03") }
 func TestC04Big(t *testing.T) { testBigDec(t, "C04") }
 func TestC12Big(t *testing.T) { testBigDec(t, "C12") }
+
+// Tail shapes (C03, C04, C12): the last sequences of a block enumerated systematically — literal length 0..18, match nibble
+// {0,1,4,13,14,15}, offsets {1,4,7,8,16,18,40}, the block ending right after the match / with a 00 token / with five literals,
+// the destination exact or with 1, 16, 32, 33, 48 bytes of room (alternately as length and as spare capacity). This is where the
+// decoders decide between their wide-copy shortcuts and the careful paths, by comparisons that are one byte apart.
+func tailCases() []decCase {
+	text := func(n int, seed uint64) []byte {
+		b := make([]byte, n)
+		gen.Fill(b, seed)
+		return b
+	}
+	var cs []decCase
+	i := 0
+	for l := 0; l <= 18; l++ {
+		for _, m := range []int{0, 1, 4, 13, 14, 15} {
+			for _, off := range []int{1, 4, 7, 8, 16, 18, 40} {
+				for tail := 0; tail < 3; tail++ {
+					for _, room := range []int{0, 1, 16, 32, 33, 48} {
+						i++
+						b := seqBytes(nil, text(40, 3), 5, 10)
+						b = seqBytes(b, text(l, uint64(l)+7), off, m+4)
+						size := 50 + l + m + 4
+						switch tail {
+						case 1:
+							b = append(b, 0x00)
+						case 2:
+							b = seqBytes(b, []byte("vwxyz"), 0, 0)
+							size += 5
+						}
+						d := decCase{Src: b, Place: "end", Origin: "tails", Fill: i % 3}
+						if i%2 == 0 {
+							d.DstLen, d.Spare = size+room, 0
+						} else {
+							d.DstLen, d.Spare = size, room
+						}
+						cs = append(cs, d)
+					}
+				}
+			}
+		}
+	}
+	return cs
+}
+
+func testTails(t *testing.T, prop string, run func(decCase, *stat.Rec) *stat.Failure) {
+	rec := stat.For(prop)
+	for i, c := range tailCases() {
+		if i%nshards != shard {
+			continue
+		}
+		pinned(t, prop, prop+"/decode", c, run)
+	}
+	rec.Class("tails/enumerated")
+}
+
+func TestC03Tails(t *testing.T) { testTails(t, "C03", runC03) }
+func TestC04Tails(t *testing.T) { testTails(t, "C04", runC04) }
+func TestC12Tails(t *testing.T) { testTails(t, "C12", runC12) }
